@@ -11,4 +11,11 @@ exes = build_many(ALL_CONFIGS)
 for c, e in exes.items():
     out, _ = run_exec(e, ["cfg"])
     print(c, out[0])
+# instruments used by C19 (overflow-checked builds, AddressSanitizer)
+for c in ("default", "w32", "m51"):
+    build(c, profile="checked", tag=c + "-checked")
+try:
+    build("default", toolchain="nightly", extra_flags="-Zsanitizer=address -Cforce-frame-pointers=yes", target="x86_64-unknown-linux-gnu", tag="default-asan")
+except Inconclusive as e:
+    print("note: ASan build unavailable:", e)
 PY
